@@ -331,3 +331,100 @@ def compare_sequence(cases, epg, tol1=1e-8, tol2=1e-7):
             dis.append({"case": ci, "kind": "sequence-vs-jets", "problems": problems, "input": case,
                         "expected_by": "Model.Jet with parameter jets from the harness's own forward-mode AD of the expressions"})
     return checked, dis
+
+
+# ---------------------------------------------------------------------------
+# correspondence `expr`: Expression eval / derive / map vs the Lean model `SE`
+
+FN = {"add": "add", "sub": "sub", "mul": "mul", "div": "div", "neg": "neg", "exp": "exp", "log": "log", "abs": "abs",
+      "pow": "pow"}
+
+
+def prefix(t):
+    k = t[0]
+    if k == "var":
+        return f"v {t[1]}"
+    if k == "const":
+        return f"c {lib.f2b(t[1])}"
+    if k == "pow2":
+        return f"f2 pow {prefix(t[1])} c {lib.f2b(2.0)}"
+    if k == "powc":
+        return f"f2 pow {prefix(t[1])} c {lib.f2b(1.5)}"
+    if len(t) == 2:
+        return f"f1 {FN[k]} {prefix(t[1])}"
+    return f"f2 {FN[k]} {prefix(t[1])} {prefix(t[2])}"
+
+
+def to_expression(t, sq):
+    env = {}
+
+    class V(dict):
+        def __missing__(self, k):
+            self[k] = sq.Variable(k)
+            return self[k]
+
+    env = V()
+    env["__math__"] = {"exp": sq.math.exp, "log": sq.math.log, "abs": abs}
+    e = ev(t, env, "epg")
+    return e if isinstance(e, sq.Expression) else sq.Constant(e)
+
+
+def compare_expr(r, ncase, depth=4):
+    """random expression trees: value, first derivatives, second derivatives, substitution"""
+    from epgpy import sequence as sq
+
+    vars_ = ["a", "b", "c"]
+    lines, expect, cases = [], [], []
+    for _ in range(ncase):
+        values = {v: float(np.round(r.uniform(0.6, 1.8), 3)) for v in vars_}
+        for _ in range(30):
+            t = gen_expr(r, vars_, depth)
+            if well_conditioned(t, values):
+                break
+        else:
+            continue
+        e = to_expression(t, sq)
+        envtok = " ".join(f"{v}={lib.f2b(x)}" for v, x in values.items())
+        reqs = [("-", lambda: e(**values))]
+        for v in vars_:
+            reqs.append((v, lambda v=v: e.derive(v, **values)))
+        a, b = vars_[r.integers(3)], vars_[r.integers(3)]
+        reqs.append((f"{a},{b}", lambda: e.derive(a).derive(b, **values)))
+        # substitution: c := a*b  then evaluate
+        sub = ("mul", ("var", "a"), ("var", "b"))
+        for dv, fn in reqs:
+            try:
+                with warnings.catch_warnings():
+                    warnings.simplefilter("ignore")
+                    val = float(np.real(fn()))
+                out = ("ok", val)
+            except Exception as exc:
+                out = ("raised", type(exc).__name__ + ": " + str(exc)[:60])
+            lines.append(f"sexpr {dv} {envtok} | {prefix(t)}")
+            expect.append((out, dv, t, values))
+        try:
+            if not well_conditioned(t, dict(values, c=values["a"] * values["b"])):
+                raise ValueError("substituted value leaves the domain")
+            mapped = e.map({"c": to_expression(sub, sq)})
+            val = float(np.real(mapped(**values)))
+            lines.append(f"sexpr - c={lib.f2b(values['a'] * values['b'])} {envtok} | {prefix(t)}")
+            expect.append((("ok", val), "map c:=a*b", t, values))
+        except Exception as exc:
+            pass
+        cases.append(t)
+    out = lib.run_driver(lines) if lines else []
+    dis = []
+    for ln, (res, dv, t, values) in zip(out, expect):
+        toks = ln.split()
+        model = None if toks[1] == "none" else lib.b2f(toks[1])
+        if res[0] == "ok" and not math.isfinite(res[1]):
+            continue  # evaluated outside the domain (nan/inf): not a case of the property
+        if res[0] == "raised":
+            if model is not None:
+                dis.append({"kind": "expr-vs-model", "problems": [(f"derive {dv}: epgpy raised {res[1]} but the model returns a value",)],
+                            "input": {"expr": t, "values": values, "derive": dv}})
+            continue
+        if model is None or not (abs(model - res[1]) <= 1e-9 * max(1.0, abs(res[1]))):
+            dis.append({"kind": "expr-vs-model", "problems": [(f"derive {dv}", None if model is None else abs(model - res[1]))],
+                        "input": {"expr": t, "values": values, "derive": dv}, "epgpy": res[1], "model": model})
+    return len(expect), dis, cases
